@@ -601,9 +601,8 @@ impl<'a> Parser<'a> {
         if !self.keyword(b"endstream") {
             return self.err(format!("no 'endstream' after {len} bytes of stream data (/Length wrong)"));
         }
-        if !eol {
-            self.issues.push(format!("no end-of-line before 'endstream' at byte {}", self.pos));
-        }
+        // ISO 32000-1 7.3.8.1 only says there *should* be an EOL before `endstream`; not an issue.
+        let _ = eol;
         Ok(Obj::Stream(Box::new(StreamObj { dict: d, data })))
     }
 
